@@ -24,6 +24,7 @@ import (
 	"strconv"
 	"strings"
 	"sync"
+	"sync/atomic"
 	"syscall"
 	"time"
 )
@@ -551,12 +552,16 @@ func supervise(prop, level, rule string) int {
 		return 3
 	}
 	done := make(chan struct{})
+	var sawViolation atomic.Bool
 	go func() {
 		sc := bufio.NewScanner(out)
 		sc.Buffer(make([]byte, 1<<20), 1<<24)
 		for sc.Scan() {
 			line := sc.Text()
 			fmt.Fprintln(logf, line)
+			if strings.HasPrefix(line, "VIOLATION ") {
+				sawViolation.Store(true)
+			}
 			if strings.HasPrefix(line, "VIOLATION ") || strings.HasPrefix(line, "KNOWN-FINDING") ||
 				strings.HasPrefix(line, "SUMMARY ") || strings.HasPrefix(line, "INCONCLUSIVE ") ||
 				strings.HasPrefix(line, "  ") || strings.HasPrefix(line, "NOTE ") || strings.HasPrefix(line, "PROGRESS ") {
@@ -591,6 +596,12 @@ func supervise(prop, level, rule string) int {
 	}
 	if hung {
 		fmt.Printf("INCONCLUSIVE property=%s global watchdog (%v) fired; goroutine dump in %s\n", prop, limit, logPath)
+		if sawViolation.Load() {
+			// violations were already reported (with their replay files) before the watchdog fired:
+			// the run is incomplete, but the verdict stands
+			patchEvidence(prop, level, rule, tier, "global watchdog fired after violations had been reported", 1)
+			return 1
+		}
 		patchEvidence(prop, level, rule, tier, "global watchdog fired", 0)
 		return 3
 	}
